@@ -1,9 +1,20 @@
 """C13 -- dictionary / JSON representations round-trip the model.
 
-to_dict is generic (it walks dir(self)); from_dict is a hand-written list of keys.  The
-check derives, per element class, the set of keys to_dict can emit from the class table
-(properties, setters, exclusion lists) and compares it with what the from_dict branch of
-that class consumes and where each key lands.
+to_dict is generic (it walks dir(self)); from_dict is a hand-written list of keys.  The core rule (R-C13-1) derives, per element class,
+the set of keys to_dict can emit from the class table (properties, setters, exclusion lists) and compares it with what the from_dict
+branch of that class consumes and where each key lands.  The module has grown beyond that; in DESIGN 2b terms it mixes
+* T1 table agreement read off the AST.  The CONSUMER side (from_dict, _read_control_line, add_* signatures) of R-C13-1, -1b, -2, -3b,
+  -3c, -3d, -3e, -4, the LinkStatus half of -5 and all of -8 is AST / text pattern matching: literal-key reads on a loop variable,
+  integer-literal subscripts on `.split()` locals, 'simple' / 'system' string constants, and the hard-coded source texts `current[6]`,
+  `FlowUnits.SI`, `dict(self)`, `options.__init__(**d['options'])`, `LinkStatus[initial_status]`, `not isinstance(x, tuple)`;
+* T2 path enumeration by TemplateExec (every path of a __str__ / explicit to_dict to string / dict templates with symbolic holes; no
+  fixtures, no sympy): the emitting side of R-C13-1b, -3c, -3e, -3f;
+* T3 finite evaluation on fixtures by concrete_evaluator / enum_evaluator (sa/peval + _shared._string_evaluator), bounded to them: the
+  generic to_dict per attribute name (R-C13-1), _read_control_line on one line per kind token (-3a), Comparison.text and the
+  mixing_model setter on every enum member (-3b, -5: exhaustive over that finite domain), 24 rule-action fixtures (-3g), one fixture
+  dict per (class, key) for -6 and the single value 0.0 for -7.
+R-C13-1, -3a and -3e fall back silently to a purely syntactic reading when the evaluator meets an unsupported construct, so which
+technique decided depends on the repository's shape.  R-C13-3 is only the family name of 3a..3g.
 """
 import ast
 import re
@@ -21,27 +32,19 @@ OPTS = "wntr/network/options.py"
 EUTIL = "wntr/epanet/util.py"
 
 EXPLANATION = (
-    "Static serializer/deserializer agreement analysis of to_dict/from_dict: (R-C13-1) for every element class the keys the generic "
-    "Node/Link.to_dict can emit are derived from the class table (public properties of the MRO minus the exclusion lists); every key "
-    "whose state can be set through the API (a real setter, or a public method writing the backing field) must be consumed by the "
-    "class's from_dict branch and land, through the add_* signature / registry assignments or a direct assignment, in the attribute of "
-    "the same name; keys of the explicit to_dict methods (Pattern, Curve, Source, TimeSeries) must be consumed likewise; (R-C13-2) a "
-    "setter fed from from_dict must accept the JSON image (list) of a tuple unless from_dict converts; (R-C13-3) control text: the node "
-    "kinds that can carry a leak action are dispatched as nodes by _read_control_line, every relation / attribute / token the "
-    "serialiser of a simple control emits is consumed by the re-reader, units are SI; (R-C13-4) every options class accepts exactly its "
-    "own __dict__ keys as constructor keywords and stores each under its own name; (R-C13-5) every string an enum-valued key is emitted "
-    "as is accepted by the setter / add_* conversion it lands in. Decides these structural agreements, not value equality of models. "
-    "The serialiser-side facts are obtained by evaluation, not by matching source shapes: the generic to_dict is evaluated per attribute "
-    "name (which names become keys), explicit to_dict methods and the control __str__ methods are executed path by path to the dictionaries / "
-    "string templates they return (format, %, f-string and concatenation are one thing), Comparison.text, the mixing_model setter and the "
-    "node/link dispatch of _read_control_line are evaluated on each concrete input. (R-C13-6) an attribute that can hold an object to_dict embeds as "
-    "its dictionary (documented type / INP-reader assignment names a class with to_dict) is re-bound by from_dict to the model's object of that name: "
-    "the statements of the from_dict branch that decide the attribute are evaluated on an element dictionary carrying the embedded image; (R-C13-7) the "
-    "same evaluation with the value 0.0 for every numeric key restored by assignment: 0.0 must land (a truthiness guard drops it); (R-C13-3g) every "
-    "action text ControlAction.__str__ writes per element kind (leak_status True/False, status OPEN/CLOSED) is read back by the THEN and ELSE loops of "
-    "_EpanetRule.generate_control as the same action (target registry, attribute, value and its type) -- writer and reader both evaluated; (R-C13-3f) "
-    "AndCondition/OrCondition.__str__ evaluated on Or(And(A,B),C) and And(A,Or(B,C)) must give different texts unless the dictionary encodes the tree "
-    "otherwise; (R-C13-8) every store of Pattern._multipliers has float elements like the constructor's, or to_dict converts the elements.")
+    "Serializer / deserializer agreement of to_dict / from_dict. T1 = table agreement read off the AST (consumer side by AST / text patterns), T2 = "
+    "path enumeration of a __str__ / to_dict to templates (TemplateExec), T3 = finite evaluation on fixtures by the in-house evaluator, bounded to "
+    "them. R-C13-1 (T1+T3): every settable key Node/Link.to_dict can emit (class table; generic to_dict evaluated per attribute name) is read by the "
+    "class's from_dict branch and lands in the attribute of that name. R-C13-1b (T1+T2): keys of Pattern / Curve / Source / TimeSeries.to_dict are "
+    "read. R-C13-2 (T1, text): a setter spelled `not isinstance(x, tuple)` is fed a tuple(...) by from_dict. R-C13-3 = family of 3a-3g, control text: "
+    "3a (T3, one line per kind token) leak-capable kinds are fetched with get_node; 3b (T3 exhaustive over Comparison members + text `current[6]`) "
+    "every relation word is accepted; 3c (T2+T1) every varying token of the simple-control __str__ is indexed by the re-reader; 3d (T1, text "
+    "`FlowUnits.SI`) units are SI; 3e (T1+T2) every control-dict key is read; 3f (T2+T3, two fixture trees) nested AND/OR texts differ; 3g (T3, 24 "
+    "fixtures) each ControlAction text is read back as the same action. R-C13-4 (T1, two text matches): options classes store each constructor "
+    "keyword under its own name. R-C13-5 (T3 exhaustive over MixType; AST pattern `LinkStatus[initial_status]`): emitted enum strings are accepted. "
+    "R-C13-6 (T3, one fixture dict per key): an embedded object is re-bound to the model's registry object. R-C13-7 (T3, value 0.0 only): 0.0 "
+    "survives from_dict. R-C13-8 (T1, syntactic dtype classifier): Pattern._multipliers stores are float like the constructor's. "
+    "Decides these agreements, not value equality of models.")
 RULE_TEXT = ("one instance = one (class, key) pair, one control-text token, one options parameter or one enum member; distinct = distinct "
              "constructs")
 ASSUMPTIONS = [
@@ -1922,7 +1925,9 @@ def rule_action_round_trip(repo, chk):
     """R-C13-3g: every action text ControlAction.__str__ can write (one per element kind; the value words of leak_status and status) is
     read back by the rule reader (_EpanetRule.generate_control, THEN and ELSE clauses) as the same action: target resolved in the
     matching registry, same attribute, same value.  Both sides are EVALUATED on concrete actions (writer: __str__ and the methods it
-    calls; reader: the body of the clause loop); nothing is matched by shape."""
+    calls; reader: the body of the clause loop) -- 24 fixtures: 6 element kinds x 2 values x THEN / ELSE, bounded to them.  Two things are
+    still located by shape: the THEN / ELSE loops by the text `_then_clauses` / `_else_clauses` in the unparsed iterator, and the result
+    by a `ControlAction(` call with 3 positional arguments."""
     from ..peval import Obj, Unknown, Raised
     ct = ClassTable(repo)
     wfn = repo.func(CTRL, "ControlAction.__str__")
